@@ -16,6 +16,8 @@
 # define VERIF_OFFSET(p)		__CPROVER_POINTER_OFFSET(p)
 # define VERIF_OBJ_UPTO(p,n)		__CPROVER_object_upto((p),(n))
 # define VERIF_OBJ_WHOLE(p)		__CPROVER_object_whole(p)
+/* ghost index for "for all k" loop invariants: a global the code never assigns */
+extern size_t verif_gk;
 #else
 # define VERIF_LOOP_ASSIGNS(...)
 # define VERIF_LOOP_INVARIANT(...)
